@@ -2,6 +2,7 @@ package main
 
 import (
 	"go/token"
+	"strings"
 
 	"golang.org/x/tools/go/ssa"
 )
@@ -371,4 +372,101 @@ func throughParams(v ssa.Value) ssa.Value {
 		}
 	}
 	return v
+}
+
+func isGoSite(in ssa.Instruction) bool {
+	_, ok := in.(*ssa.Go)
+	return ok
+}
+
+// argOfType: the first argument of the call whose type satisfies pred (arguments are found by type, not by position,
+// so that moving parameters into a receiver or a parameter struct does not lose them). nil if none.
+func argOfType(args []ssa.Value, pred func(t string) bool) ssa.Value {
+	for _, a := range args {
+		if pred(a.Type().String()) {
+			return a
+		}
+	}
+	return nil
+}
+
+func isAnyType(t string) bool     { return t == "any" || t == "interface{}" }
+func isDAGNodeType(t string) bool { return strings.Contains(t, "dgraph.Node[") }
+func isStringSlice(t string) bool { return t == "[]string" }
+
+// liftedBarrier extends an instruction predicate to calls of repo functions that satisfy it on every path from their
+// entry to a return that does not carry an error: "this call connects the nodes" is true of a helper that connects
+// them whenever it succeeds.
+func (c *Ctx) liftedBarrier(pred func(ssa.Instruction) bool) func(ssa.Instruction) bool {
+	memo := map[*ssa.Function]int{} // 0 unknown, 1 yes, 2 no / in progress
+	var lifted func(in ssa.Instruction) bool
+	var always func(f *ssa.Function) bool
+	always = func(f *ssa.Function) bool {
+		if v, ok := memo[f]; ok {
+			return v == 1
+		}
+		memo[f] = 2
+		okReturn := func(in ssa.Instruction) bool {
+			ret, ok := in.(*ssa.Return)
+			if !ok {
+				return false
+			}
+			res := retResults(ret)
+			if len(res) > 0 && res[len(res)-1].Type().String() == "error" && !isNilConst(res[len(res)-1]) {
+				return false // an error exit: the caller fails, nothing is skipped silently
+			}
+			return true
+		}
+		has := false
+		eachInstr(f, func(r instrRef) {
+			if lifted(r.I) {
+				has = true
+			}
+		})
+		if has && c.findPath(f, nil, lifted, okReturn) == nil {
+			memo[f] = 1
+			return true
+		}
+		return false
+	}
+	lifted = func(in ssa.Instruction) bool {
+		if pred(in) {
+			return true
+		}
+		call, ok := in.(*ssa.Call)
+		if !ok {
+			return false
+		}
+		callee := call.Common().StaticCallee()
+		if callee == nil || len(callee.Blocks) == 0 || !isRepoFn(callee) {
+			return false
+		}
+		return always(callee)
+	}
+	return lifted
+}
+
+// callsTransitively: the instruction is a call of `name` or of a repo function that calls it (depth 2).
+func (c *Ctx) callsTransitively(in ssa.Instruction, name string, depth int) bool {
+	if isCallTo(in, name) {
+		return true
+	}
+	if depth <= 0 {
+		return false
+	}
+	call, ok := in.(*ssa.Call)
+	if !ok {
+		return false
+	}
+	callee := call.Common().StaticCallee()
+	if callee == nil || len(callee.Blocks) == 0 || !isRepoFn(callee) {
+		return false
+	}
+	found := false
+	eachInstr(callee, func(r instrRef) {
+		if c.callsTransitively(r.I, name, depth-1) {
+			found = true
+		}
+	})
+	return found
 }
